@@ -167,10 +167,19 @@ func (r *Refs) RenameBranch(rootGoitPath, curBranchName, newBranchName string) e
 	r.Heads[curNum].Name = newBranchName
 	sort.Slice(r.Heads, func(i, j int) bool { return r.Heads[i].Name < r.Heads[j].Name })
 
-	// rename file
-	oldPath := filepath.Join(rootGoitPath, "refs", "heads", curBranchName)
-	newPath := filepath.Join(rootGoitPath, "refs", "heads", newBranchName)
-	if err := os.Rename(oldPath, newPath); err != nil {
+	// the file of the new name is written next to the old one; the old one is removed by
+	// RemoveRenamedBranch once HEAD names the new branch, so that HEAD names an existing branch at every moment
+	if err := r.Heads[r.getBranchPos(newBranchName)].write(rootGoitPath); err != nil {
+		return fmt.Errorf("fail to rename file: %w", err)
+	}
+
+	return nil
+}
+
+// remove the file of the old name of a renamed branch
+func (r *Refs) RemoveRenamedBranch(rootGoitPath, oldBranchName string) error {
+	oldPath := filepath.Join(rootGoitPath, "refs", "heads", oldBranchName)
+	if err := os.Remove(oldPath); err != nil {
 		return fmt.Errorf("fail to rename file: %w", err)
 	}
 
